@@ -36,6 +36,7 @@ class Spec(pipeprops.PropSpec):
             ts = pipe.gen_graph(r, general=(i % 2 == 0))
             cfg = pipeprops.random_cfg(r, ts, i)
             cfg["cap"] = -1          # the cap keeps the first k instances in document order (C16): not order-invariant
+            cfg["detect_minimal_iri"] = (i % 2 == 1)   # the stem is part of "the same shapes" (implementation side only)
             ts2 = relabel(ts, r)
             r.shuffle(ts2)
             cases.append({"runs": [(ts, cfg), (ts2, cfg)], "meta": {"kind": "random"}})
@@ -58,6 +59,10 @@ class Spec(pipeprops.PropSpec):
         e2 = pipespec.evidence_of(pipe.canon(impl[1][1]), cfg["tau"])
         rcs = pipespec.tie_root_causes(ts, cfg)
         fails = []
+        st1 = {sh["label"]: sh["stem"] for sh in pipe.canon(impl[0][1])["shapes"]}
+        st2 = {sh["label"]: sh["stem"] for sh in pipe.canon(impl[1][1])["shapes"]}
+        if st1 != st2:
+            fails.append((None, "IRI stems differ: %r vs %r" % (st1, st2)))
         if e1["labels"] != e2["labels"]:
             fails.append((None, "shapes / instance counts differ: %r vs %r" % (e1["labels"], e2["labels"])))
         if e1["keys"] != e2["keys"]:
